@@ -30,6 +30,7 @@ def perlMatch : PerlKind → Nat → Bool
 def itemMatch : ClassItem → Nat → Bool
   | .range lo hi, c => lo ≤ c && c ≤ hi
   | .perl k neg, c => perlMatch k c != neg
+  | .ascii rs neg, c => inTable rs c != neg
 
 /-- `[…]` / `[^…]` on one scalar value (negation is the complement within ALL scalar values: a
 negated class matches `\n` – irrelevant for a line – and every non-ASCII char) -/
@@ -48,12 +49,17 @@ def wordBefore (h : Chars) (i : Nat) : Bool :=
   | 0 => false
   | k + 1 => wordAt h k
 
-/-- `Look::{Start, End, WordUnicode, WordUnicodeNegate}` at position `i` -/
+/-- `Look::{Start, End, WordUnicode, WordUnicodeNegate, WordStartUnicode, WordEndUnicode,
+WordStartHalfUnicode, WordEndHalfUnicode}` at position `i` -/
 def lookHolds (h : Chars) : Look → Nat → Bool
   | .startText, i => i = 0
   | .endText, i => i = h.length
   | .wordB, i => wordBefore h i != wordAt h i
   | .notWordB, i => wordBefore h i == wordAt h i
+  | .wordStart, i => !wordBefore h i && wordAt h i
+  | .wordEnd, i => wordBefore h i && !wordAt h i
+  | .wordStartHalf, i => !wordBefore h i
+  | .wordEndHalf, i => !wordAt h i
 
 /-! ### the specification -/
 
@@ -131,9 +137,6 @@ def enc (c : Nat) : Bytes :=
   else [240 + c / 262144, 128 + c / 4096 % 64, 128 + c / 64 % 64, 128 + c % 64]
 
 def encAll (cs : Chars) : Bytes := cs.flatMap enc
-
-/-- a Unicode scalar value -/
-def isScalar (c : Nat) : Bool := c < 55296 || (57344 ≤ c && c < 1114112)
 
 def isCont (b : Nat) : Bool := 128 ≤ b && b ≤ 191
 
